@@ -94,13 +94,30 @@ type Lexer func(resetPosition int) (Token, error)
 
 func Lex(s *source.Source) Lexer {
 	var prevPosition int
+	// A NAME token counts the ignored run in front of it in code points, so
+	// after multi-byte ignored text (a BOM, an accented comment) its End lies
+	// before the byte at which the name really ends. resume maps such an End
+	// to that byte, so that lexing continues after the name, not inside it.
+	var resume map[int]int
 	return func(resetPosition int) (Token, error) {
 		if resetPosition == 0 {
 			resetPosition = prevPosition
 		}
+		if at, ok := resume[resetPosition]; ok {
+			resetPosition = at
+		}
 		token, err := readToken(s, resetPosition)
 		if err != nil {
 			return token, err
+		}
+		if token.Kind == NAME {
+			start, _ := positionAfterWhitespace(s.Body, resetPosition)
+			if end := start + len(token.Value); end != token.End {
+				if resume == nil {
+					resume = map[int]int{}
+				}
+				resume[token.End] = end
+			}
 		}
 		prevPosition = token.End
 		return token, nil
